@@ -40,6 +40,18 @@ def gen_spin(rng, tier):
     return cases
 
 
+def gen_spin_tso(rng, tier):
+    """the same scripts replayed through the store-buffer machine Model/SpinTso (unbounded
+    counters: the lock word starts far below 2^32), with the critical-section counter registered
+    as the data cell the lock protects"""
+    cases = []
+    for c in gen_spin(rng, tier)[: n_cases(tier, 200, 4000)]:
+        c["args"][0] = rng.choice([0, 0, 1, 7, 1000, rng.randrange(1 << 20)])
+        c["env"] = dict(c["env"], VH_DATA=1)
+        cases.append(c)
+    return cases
+
+
 def lock_discipline(log_path, case):
     """Oracle on the accesses to every spinlock cell of a whole-runtime log (`<fd>.lock` of the
     descriptor table, `lk` = sleep_spinlock): the client contract the C18 theorems assume of
@@ -109,7 +121,9 @@ SPEC = {
     "C18": {
         "pre": pre,
         "extra_props": ("TsoSpin",),
-        "parts": [{"name": "spin", "harness": "spin", "model": "Spin", "gen": gen_spin}, _event_locks_part()],
+        "parts": [{"name": "spin", "harness": "spin", "model": "Spin", "gen": gen_spin},
+                  {"name": "spin-tso", "harness": "spin", "model": "SpinTso", "gen": gen_spin_tso},
+                  _event_locks_part()],
         "trusted_base": [
             "32-bit ticket/users counters modelled modulo 2^32 with arbitrary initial value; "
             "theorems assume fewer than 2^32 tickets outstanding at any instant "
